@@ -336,6 +336,20 @@ static void evaluate(World &w, int top_call, uint64_t now, size_t open_at_entry)
     std::vector<Frame> st;
     std::vector<int> run_order; // schedulings run directly by this command's run_all, in order
     size_t total_inv = 0;
+    if (w.ctx->replay) { // trace for a human reading a replay
+        int ind = 0;
+        fprintf(stderr, "cmd %d: %s", w.cmd, CALLN[top_call]);
+        if (top_call == CALL_RUN) fprintf(stderr, "(%" PRIu64 ")", now);
+        fprintf(stderr, "\n");
+        for (const Ev &e : w.hist) {
+            if (e.k == EV_CALL_END || e.k == EV_INV_END) ind--;
+            if (e.k == EV_CALL_BEGIN && e.call != CALL_HAS)
+                fprintf(stderr, "  %*s-> %s task=%d v=%" PRIu64 "\n", ind * 2, "", CALLN[e.call], e.task, e.v);
+            if (e.k == EV_INV_BEGIN)
+                fprintf(stderr, "  %*sfn(task %d, %s)%s\n", ind * 2, "", e.task, stname(e.status), e.sch < 0 ? "  [not scheduled]" : "");
+            if (e.k == EV_CALL_BEGIN || e.k == EV_INV_BEGIN) ind++;
+        }
+    }
     for (const Ev &e : w.hist) {
         switch (e.k) {
         case EV_CALL_BEGIN: st.push_back(Frame{e.call, e.task, e.sch, 0}); break;
